@@ -12,6 +12,7 @@ func init() {
 			"ERR-LOOP: groupEntries, ReadStepResponse, iterators.ForEach check Err() before a successful return",
 			"ERR-PROP: errors of ContainerList/ContainerLogs/openLog/parseNext/selectLogs/Build/ReadStepResponse/evalExpr/Eval reach failure exits",
 			"PV-GO: concurrent opens join before cleanup/merge",
+			"ERR-STICKY: a failure recorded in the field an iterator's Err() reports is never overwritten by a possibly-nil value (consumers call Next again after false: rangeAggIterator does at every step)",
 			"C03's decoder rules (stream read API, fault exits) are re-checked here: a malformed frame at any position is an error",
 		},
 		NotDecided: []string{"that Close of the Docker client's body releases the connection", "double close", "context cancellation"},
@@ -24,6 +25,7 @@ func init() {
 			rulePVGo(r)
 			ruleErrChainC14(r)
 			ruleDaemonLog(r)
+			ruleErrSticky(r, []string{dockerlogPkg, enginePkg, metricPkg, itersPkg, lexerPkg}, 1)
 		},
 	})
 }
